@@ -327,6 +327,14 @@ func matchCollectionName(sampleCollection, targetCollection string) (bool, bool)
 		db1 == cdcreader.AllDatabase || collection1 == cdcreader.AllCollection
 }
 
+// intersectCollectionName whether there is a collection which is selected by both names
+func intersectCollectionName(name1, name2 string) bool {
+	db1, collection1 := util.GetCollectionNameFromFull(name1)
+	db2, collection2 := util.GetCollectionNameFromFull(name2)
+	return (db1 == db2 || db1 == cdcreader.AllDatabase || db2 == cdcreader.AllDatabase) &&
+		(collection1 == collection2 || collection1 == cdcreader.AllCollection || collection2 == cdcreader.AllCollection)
+}
+
 func (e *MetaCDC) checkDuplicateCollection(uKey string,
 	newCollectionNames []string,
 	extraInfo model.ExtraInfo,
@@ -352,6 +360,12 @@ func (e *MetaCDC) checkDuplicateCollection(uKey string,
 			for _, name := range names {
 				match, containAny := matchCollectionName(name, newCollectionName)
 				if match && containAny && !lo.Contains(e.collectionNames.excludeData[uKey], newCollectionName) {
+					duplicateCollections = append(duplicateCollections, newCollectionName)
+					break
+				}
+				// the names overlap partially, like `default.*` and `*.foo`, and neither contains the other,
+				// so the common collections can't be excluded from the new task by an existing name
+				if reverseMatch, _ := matchCollectionName(newCollectionName, name); !match && !reverseMatch && intersectCollectionName(name, newCollectionName) {
 					duplicateCollections = append(duplicateCollections, newCollectionName)
 					break
 				}
